@@ -1,6 +1,6 @@
 CONSTANTS
-  MaxLen = 5
-  MaxArr = 4
+  MaxLen = 4
+  MaxArr = 3
   MaxCap = 2
   Full = FALSE
   Quiet = TRUE
